@@ -278,6 +278,24 @@ def r2_reductions(ck, prog, run):
         else:
             ck.unk("R2", ta.where, "Phase._take_along_axis(flat index, axis=None)", "selection is an element lookup the analyser can normalise", str(r)[:160])
     take_along_rule(ck, prog, ta)
+    # ... and the producers of those flat indices must count in the same logical C order: flattening the keys with order="K"/"A"/"F"
+    # numbers the elements by memory layout, which differs for transposed / Fortran-ordered / sliced phase arrays
+    n_flat = 0
+    for nm in ("argsort", "argmin", "argmax", "sort", "min", "max"):
+        fm = prog.func("Phase." + nm)
+        for c in ast.walk(fm.node):
+            if not (isinstance(c, ast.Call) and isinstance(c.func, ast.Attribute) and c.func.attr in ("ravel", "flatten", "reshape")):
+                continue
+            order = next((k.value for k in c.keywords if k.arg == "order"), None)
+            if order is None and c.func.attr in ("ravel", "flatten") and c.args:
+                order = c.args[0]
+            if c.func.attr == "reshape" and order is None:
+                continue
+            n_flat += 1
+            okc = order is None or (isinstance(order, ast.Constant) and order.value == "C")
+            ck.same("R2", fm.where, norm(c)[:80], "keys and values are flattened in logical C order (the order np.unravel_index(i, shape) assumes), not in memory order",
+                    okc, found=None if okc else f"order={norm(order)}", nontrivial=True)
+    run.floor("R2", "flattening calls in the index producers", n_flat, 2)
 
 
 def take_along_rule(ck, prog, ta):
